@@ -96,12 +96,12 @@ pub open spec fn doc_arity(m: DocMeaning) -> (int, bool) {
 // ---------------------------------------------------------------- documented token shapes
 
 pub open spec fn call_toks(m: Seq<char>, args: Seq<Tok>) -> Seq<Tok> {
-    seq![Tok::Punct('.'), Tok::Ident(m), Tok::Group(Delim::Paren, args)]
+    seq![Tok::Punct('.'), Tok::Ident(m)] + group(Delim::Paren, args)
 }
 
 pub open spec fn turbofish_call_toks(m: Seq<char>, tys: Seq<Tok>) -> Seq<Tok> {
     seq![Tok::Punct('.'), Tok::Ident(m), Tok::Punct(':'), Tok::Punct(':'), Tok::Punct('<')]
-        + tys + seq![Tok::Punct('>'), Tok::Group(Delim::Paren, Seq::<Tok>::empty())]
+        + tys + seq![Tok::Punct('>')] + group(Delim::Paren, Seq::<Tok>::empty())
 }
 
 pub open spec fn comma() -> Seq<Tok> { seq![Tok::Punct(',')] }
@@ -132,14 +132,14 @@ pub open spec fn meaning_toks(m: DocMeaning, ops: Seq<Expr>, tys: Option<Seq<Typ
 
 /// `{ let <tmp> = <callee>; <tmp> }` -- a block whose value is the callee
 pub open spec fn callee_block(tmp: Seq<char>, callee: Seq<Tok>) -> Seq<Tok> {
-    seq![Tok::Group(Delim::Brace,
+    group(Delim::Brace,
         seq![Tok::Ident("let"@), Tok::Ident(tmp), Tok::Punct('=')] + callee
-            + seq![Tok::Punct(';'), Tok::Ident(tmp)])]
+            + seq![Tok::Punct(';'), Tok::Ident(tmp)])
 }
 
 /// `( <callee-block> ( <value> ) )`  -- call-with-value
 pub open spec fn call_with_value_toks(callee_blk: Seq<Tok>, value: Seq<Tok>) -> Seq<Tok> {
-    seq![Tok::Group(Delim::Paren, callee_blk + seq![Tok::Group(Delim::Paren, value)])]
+    group(Delim::Paren, callee_blk + group(Delim::Paren, value))
 }
 
 /// `|<v>| <body>`
